@@ -81,7 +81,9 @@ func runSeq(args []string) error {
 		r := &seqRun{sc: &sc, tr: tr}
 		return r.run(dir)
 	})
-	core.Summary(map[string]any{"events": n, "scenarios": len(scens)})
+	core.Summary(map[string]any{"events": n, "scenarios": len(scens), "projections": projStats.n, "proj_multi_index_files": projStats.multiIdx,
+		"proj_multi_primary_files": projStats.multiPri, "proj_deleted_index_records": projStats.delIdx, "proj_deleted_primary_records": projStats.delPri,
+		"proj_pending_freelist": projStats.pending, "proj_multi_entry_lists": projStats.multiEntry})
 	return err
 }
 
@@ -323,10 +325,46 @@ func sameDigest(a, b map[string]any) bool {
 	return true
 }
 
+// projection statistics for the evidence file (non-vacuity of the Fsck rules)
+var projStats struct {
+	n, multiIdx, multiPri, delIdx, delPri, pending, multiEntry int64
+}
+
 func (r *seqRun) projection() any {
 	p, err := fsckread.Read(r.dir, "index", r.dir, "data", r.sc.Cfg.Primary == "cid")
 	if err != nil {
 		return map[string]any{"readerr": err.Error()}
+	}
+	atomic.AddInt64(&projStats.n, 1)
+	if len(p.IF) > 1 {
+		atomic.AddInt64(&projStats.multiIdx, 1)
+	}
+	if len(p.PF) > 1 {
+		atomic.AddInt64(&projStats.multiPri, 1)
+	}
+	if len(p.FL)+len(p.GC) > 0 {
+		atomic.AddInt64(&projStats.pending, 1)
+	}
+	di, dp, me := false, false, false
+	for _, f := range p.IF {
+		for _, rec := range f.Recs {
+			di = di || rec.Del
+			me = me || len(rec.Ents) > 1
+		}
+	}
+	for _, f := range p.PF {
+		for _, rec := range f.Recs {
+			dp = dp || rec.Del
+		}
+	}
+	if di {
+		atomic.AddInt64(&projStats.delIdx, 1)
+	}
+	if dp {
+		atomic.AddInt64(&projStats.delPri, 1)
+	}
+	if me {
+		atomic.AddInt64(&projStats.multiEntry, 1)
 	}
 	return p
 }
